@@ -121,7 +121,7 @@ pub fn suites() -> Vec<Suite> {
         head_len: HEAD_LEN,
         op_len: OP_LEN,
         max_ops: 24,
-        quick_cases: 5_000,
+        quick_cases: 25_000,
         thorough_cases: 400_000,
         run,
         direct: Some(direct_with::<C02Oracle>),
